@@ -7,6 +7,7 @@ import (
 	"math/big"
 	"strconv"
 	"strings"
+	"sync"
 	"time"
 
 	"github.com/influxdata/influxql"
@@ -329,8 +330,7 @@ func init() {
 func c08run(r *ev.Run) {
 	th := thorough(r)
 	var accepted, rejected int64
-	var mu = make(chan struct{}, 1)
-	mu <- struct{}{}
+	var mu sync.Mutex
 	do := func(c c08Case, label string) {
 		n := r.Eval()
 		r.Trans(int64(len(c.Comps)) + 1)
@@ -338,14 +338,14 @@ func c08run(r *ev.Run) {
 		nontrivial := true
 		if c.Kind == "parse" {
 			_, err := influxql.ParseDuration(c.spelling())
-			<-mu
+			mu.Lock()
 			if err == nil {
 				accepted++
 			} else {
 				rejected++
 				nontrivial = false
 			}
-			mu <- struct{}{}
+			mu.Unlock()
 		}
 		r.State(astx.HashString(label), nontrivial)
 		r.Sample(n, func() interface{} { return label })
